@@ -721,9 +721,11 @@ func (c *Client) Do(ctx context.Context, q Query) (err error) {
 		}
 		return nil
 	})
-	g.Go(func() error {
+	var recvErr error // receiver result, set before done is closed
+	g.Go(func() (err error) {
 		// Receiving query result, data and telemetry.
 		defer close(done)
+		defer func() { recvErr = err }()
 		if colInfo != nil {
 			defer close(colInfo)
 		}
@@ -765,7 +767,10 @@ func (c *Client) Do(ctx context.Context, q Query) (err error) {
 	g.Go(func() error {
 		<-done
 		// Handling query cancellation if needed.
-		if ctx.Err() != nil && !gotException.Load() {
+		//
+		// Also checking receiver error: done is closed before errgroup cancels
+		// the context, so failed receiver can be observed with live context.
+		if (ctx.Err() != nil || recvErr != nil) && !gotException.Load() {
 			err := multierr.Append(ctx.Err(), c.cancelQuery())
 			return errors.Wrap(err, "canceled")
 		}
